@@ -405,7 +405,7 @@ def n2_strip_logging(fn, ent):
     return n
 
 
-def n3_inline_return_temps(fn, ent, ref_locals):
+def _return_temp_candidates(fn):
     loads = {}
     stores = {}
     for x in ast.walk(fn):
@@ -417,20 +417,60 @@ def n3_inline_return_temps(fn, ent, ref_locals):
             a, b = v[i], v[i + 1]
             if (isinstance(a, ast.Assign) and len(a.targets) == 1 and isinstance(a.targets[0], ast.Name) and isinstance(b, ast.Return)
                     and isinstance(b.value, ast.Name) and b.value.id == a.targets[0].id):
-                cand.setdefault(a.targets[0].id, []).append((owner, field, a, b))
-    n = 0
+                cand.setdefault(a.targets[0].id, []).append((owner, field, i))
     from . import alpha
     mine = set(alpha.function_locals(fn))
+    out = {}
     for name, pairs in cand.items():
-        if name in ref_locals or name not in mine:
-            continue
-        if len(loads.get(name, [])) != len(pairs) or len(stores.get(name, [])) != len(pairs):
-            continue      # read or written somewhere else as well
-        for owner, field, a, b in pairs:
-            v = getattr(owner, field)
-            b.value = a.value
-            v.remove(a)
-            n += 1
+        if name in mine and len(loads.get(name, [])) == len(pairs) and len(stores.get(name, [])) == len(pairs):
+            out[name] = pairs      # not read or written anywhere else
+    return out
+
+
+def _inline_temp(fn, name):
+    n = 0
+    for owner, field, v in list(_all_blocks(fn)):
+        i = 0
+        while i < len(v) - 1:
+            a, b = v[i], v[i + 1]
+            if (isinstance(a, ast.Assign) and len(a.targets) == 1 and isinstance(a.targets[0], ast.Name) and a.targets[0].id == name
+                    and isinstance(b, ast.Return) and isinstance(b.value, ast.Name) and b.value.id == name):
+                b.value = a.value
+                del v[i]
+                n += 1
+            else:
+                i += 1
+    return n
+
+
+def n3_inline_return_temps(fn, ent, ref_locals, ref_hash=None):
+    """inline as many `t = e; return t` temporaries as the function has locals more than the catalogued one; when a
+    choice exists, the one that makes the function equal (up to renaming) to the catalogued one, else the ones whose
+    names the catalogued function does not have, in order of appearance."""
+    import copy
+    import itertools
+    from . import alpha
+    cand = _return_temp_candidates(fn)
+    if not cand:
+        return 0
+    need = len(alpha.function_locals(fn)) - len(ref_locals)
+    if need <= 0:
+        return 0
+    names = [nm for nm in alpha.function_locals(fn) if nm in cand]
+    choice = None
+    if ref_hash is not None and len(names) <= 6:
+        for sub in itertools.combinations(names, min(need, len(names))):
+            c = copy.deepcopy(fn)
+            for nm in sub:
+                _inline_temp(c, nm)
+            if alpha.normal_hash(c, alpha.function_locals(c)) == ref_hash:
+                choice = list(sub)
+                break
+    if choice is None:
+        choice = [nm for nm in names if nm not in ref_locals][:need]
+    n = 0
+    for nm in choice:
+        n += _inline_temp(fn, nm)
     return n
 
 
@@ -495,8 +535,8 @@ def canonicalise(tree, modname, stage="post"):
         if not isinstance(ent, dict):
             continue
         if stage == "pre":
-            ref_locals = set((atab.get(q) or {}).get("names", ()))
-            ks = {"N2": n2_strip_logging(fn, ent), "N3": n3_inline_return_temps(fn, ent, ref_locals)}
+            aent = atab.get(q) or {}
+            ks = {"N2": n2_strip_logging(fn, ent), "N3": n3_inline_return_temps(fn, ent, list(aent.get("names", ())), aent.get("hash"))}
         else:
             ks = {"N5": n5_align_augassign(fn, ent), "N1": n1_orient_compares(fn, ent)}
             ks["N6"] = n6_align_nested(fn, ent)
